@@ -79,3 +79,15 @@ extern "C" void h_art_reject_write(void) {
     vf_assert(0, "a structure violating a cross-field rule was written");
   } VF_CATCH
 }
+extern "C" void h_dbg(void) {
+  static uint8_t in[ART_LEN + 4];
+  ArtShape s = build_art(in);
+  g_may_throw = false;
+  vf_assert(vf_ld32(in + 4) == NPAL, "dbg: palette count constant");
+  vf_assert(memcmp(in, "CPAL", 4) == 0, "dbg: tag constant");
+  vf_assert(vf_ld32(in + s.offAnimHeader) == NANIM, "dbg: anim count");
+  Stream::MemoryReader r(in, s.len);
+  SectionHeader h; r.Read(h);
+  vf_assert(h.length == NPAL, "dbg: read length");
+  VF_WITNESS();
+}
